@@ -51,4 +51,11 @@ CLAIMED["C12"] = dict(
          "transition system never lets a handler see another request's octets; models tied to /repo by scripted net.Conn / "
          "PacketConn correspondence; cross-talk under real concurrency by runtime observation (partial)",
     technique="machine-checked proof in Coq (induction over chunkings, invariant over the pool LTS) + model/implementation correspondence by vm_compute")
+CLAIMED["C05"] = dict(
+    text="Coq theorems over models of the printers, the one-line lexer, type/class mnemonic tables (every code point), the "
+         "RFC 3597 generic form and a presentation grammar with layouts for 49 regular types: printed text is re-read to the "
+         "same fields (any octets, any length); 25 irregular types by direct oracle only (partial); models tied to /repo by "
+         "vm_compute correspondence and NewRR(String()) oracles on records from wire and from text for every type each run; "
+         "48 recorded findings in known_findings.json",
+    technique="machine-checked proof in Coq (induction over octet strings and grammars, exhaustive code-point sweeps) + model/implementation correspondence by vm_compute")
 NOT_YET = {}
